@@ -266,7 +266,7 @@ func c03Enumerate(h *H, ver int, viaModified bool) {
 		}
 		err := safely(checkV3Scores, c)
 		if err == nil {
-			h.t.Fatalf("HARNESS-ERROR C03: bulk evaluator flagged v%s class %d (%s) but the single-case check passes", v.Name, m, c.vec())
+			walkDisagrees(h, "C03", ver, int(m), fmt.Sprintf("v%s class %d (%s)", v.Name, m, c.vec()))
 		}
 		h.fail("v3-assignment", c, err)
 	}
@@ -339,6 +339,10 @@ func TestC03(t *testing.T) {
 	h := start(t, "C03", "complete enumeration, for v3.0 and v3.1 each, of the 16,588,800 effective classes (2,592 base combinations x CR/IR/AR incl. X x E/RL/RC incl. X, Modified metrics X) checking BaseScore, TemporalScore, EnvironmentalScore, Impact and Exploitability, walked twice: once with the effective values held by the base metrics and once with every Modified metric holding the effective value over other base values; plus, exhaustively, every base combination x every pair of Modified metric values (2 x 1.4 million cases), a grid (each Modified metric x each value x each base value x 12 backgrounds) and rapid lifts into the raw space with Modified metrics defined; non-trivial = environmental score > 0; enumerated classes are distinct by construction, lifts by assignment")
 	h.R.Assume("oracle: FIRST v3.0/v3.1 equations in math/big.Rat, Roundup as the real-number ceiling to one decimal (spec/score3.go); spec_test.go shows it coincides with the Appendix A integer algorithm on the whole domain")
 	h.R.Assume("the three scores are compared exactly (got == k/10); Impact/Exploitability with absolute tolerance 1e-9")
+	if h.replaying() && h.replay.Kind == "concurrent-classes" {
+		doReplay(h, "concurrent-classes", runConcBatch)
+		return
+	}
 	if h.replaying() && h.replay.Kind == "score-history" {
 		doReplay(h, "score-history", checkScoreHist)
 		return
@@ -580,6 +584,10 @@ func (sp *v4SingleSpace) decode(idx int) ScoreCase {
 func TestC04(t *testing.T) {
 	h := start(t, "C04", "complete enumeration of the 15,116,544 effective v4.0 classes (AV AC AT PR UI VC VI VA SC SI{S,H,L,N} SA{S,H,L,N} E{A,P,U} CR IR AR{H,M,L}; SI/SA=S carried by MSI/MSA:S) covering all 270 MacroVectors, walked twice (effective values held by the base metrics; held by the Modified metrics over other base values), Score compared exactly with the oracle; plus, exhaustively, every base combination (104,976) x every single Modified metric value (3.9 million cases), and rapid lifts into the raw space (Modified overrides, explicit X, supplemental metrics, all-None corner profiles); non-trivial = not all effective impacts None; enumerated classes are distinct by construction, lifts by assignment")
 	h.R.Assume("oracle: specification section 8.2 over metric letters, exact fraction of tenths with denominator 840*n, rounded half-up (spec/score4.go); frozen 270-entry lookup table (spec/v4lookup.go, SHA-256 pinned in spec_test.go)")
+	if h.replaying() && h.replay.Kind == "concurrent-classes" {
+		doReplay(h, "concurrent-classes", runConcBatch)
+		return
+	}
 	if h.replaying() && h.replay.Kind == "score-history" {
 		doReplay(h, "score-history", checkScoreHist)
 		return
@@ -650,7 +658,7 @@ func TestC04(t *testing.T) {
 			c := v4ClassCase(int(mism))
 			err := safely(checkV4Score, c)
 			if err == nil {
-				t.Fatalf("HARNESS-ERROR C04: bulk evaluator flagged class %d (%s) but the single-case check passes", mism, c.vec())
+				walkDisagrees(h, "C04", 3, int(mism), fmt.Sprintf("class %d (%s)", mism, c.vec()))
 			}
 			h.fail("v4-assignment", c, err)
 		}
@@ -671,7 +679,7 @@ func TestC04(t *testing.T) {
 			c := v4ClassCaseViaModified(int(mism2))
 			err := safely(checkV4Score, c)
 			if err == nil {
-				t.Fatalf("HARNESS-ERROR C04: bulk evaluator flagged Modified-carried class %d (%s) but the single-case check passes", mism2, c.vec())
+				walkDisagrees(h, "C04", 3, int(mism2), fmt.Sprintf("Modified-carried class %d (%s)", mism2, c.vec()))
 			}
 			h.fail("v4-assignment", c, err)
 		}
